@@ -63,6 +63,8 @@ def main():
                 shutil.rmtree(OUT, ignore_errors=True)
                 started = time.time()
                 env = dict(os.environ, PMSIM_REPO=TREE, PMSIM_OUT=OUT)
+                if "--first" in sys.argv:
+                    env["PMSIM_STOP_AT_FIRST"] = "1"
                 proc = subprocess.run(["/venv/bin/python", "/verif/pmsim_cli.py", "check", "C13", "--tier", "quick"], env=env, capture_output=True, text=True)
                 keys = sorted(set(re.findall(r"key=(\S+)", proc.stdout)))
                 occurrences = sum(int(n) for n in re.findall(r"occurrences=(\d+)", proc.stdout))
@@ -71,7 +73,7 @@ def main():
             finally:
                 subprocess.run(["git", "-C", "/repo", "worktree", "remove", "--force", TREE], capture_output=True)
                 shutil.rmtree(OUT, ignore_errors=True)
-    with open("/verif/tools/reset_campaign_results.json", "w") as handle:
+    with open(sys.argv[sys.argv.index("--out") + 1] if "--out" in sys.argv else "/verif/tools/reset_campaign_results.json", "w") as handle:
         json.dump(results, handle, indent=1)
     missed = [r for r in results if not r["detected"]]
     print("campaign: %d mutants, %d detected, missed: %s" % (len(results), len(results) - len(missed), [(r["rule"], r["mutant"]) for r in missed]))
